@@ -328,6 +328,40 @@ def extra_short_series(ctx, rec):
                 rec.session([steps[0]], dict(CONCS[0], xc="list_none", ac="list_none"))
 
 
+def extra_missing_markers(ctx, rec):
+    """C02: the three documented missing markers -- None, NaN and masked elements (also mixed within one masked array)"""
+    g = gen_qc.Gen(ctx.seed + 67, size=ctx.pick(8, 14))
+    carriers = ["list_none", "ma_nan", "ma_junk", "ma_mixed", "tuple_nan"]
+    for fn in [f for f in ALL_FNS if f != "press"]:
+        for rep in range(ctx.pick(10, 60)):
+            c = g.base(fn)
+            if fn == "valid" and c["p"]["kind"] == "time":
+                continue
+            xc = carriers[rep % len(carriers)]
+            if xc == "ma_mixed" and fn not in ("loc", "speed") and len(c["x"]) >= 2:
+                # at least two missing values, so that both kinds (masked, plain NaN) occur in the one array
+                for i in g.r.sample(range(len(c["x"])), 2):
+                    c["x"][i] = gen_qc.NA
+            conc = dict(CONCS[rep % 2], xc=xc, ac=carriers[(rep + 2) % len(carriers)])
+            if fn == "valid" and xc in ("list_none", "tuple_nan"):
+                conc["dtype"] = "float64"
+            rec.session([({"kind": "base", "i": 0, "k": 0}, c)], conc)
+
+
+def extra_valid_time_bounds(ctx, rec):
+    """C03: datetime-valued valid_range_test with a missing bound spelled None and spelled NaT"""
+    g = gen_qc.Gen(ctx.seed + 71, size=8)
+    n = 0
+    while n < ctx.pick(80, 600):
+        c = g.valid()
+        if c["p"]["kind"] != "time":
+            continue
+        if n % 2 == 0:
+            c["p"]["lo" if n % 4 == 0 else "hi"] = gen_qc.NA
+        n += 1
+        rec.session([({"kind": "base", "i": 0, "k": 0}, c)], dict(CONCS[n % len(CONCS)], natbound=(n % 3 != 0)))
+
+
 def extra_valid_int(ctx, rec):
     """C03: valid_range_test on integer arrays (no NaN available for a missing bound) and on lists with a dtype"""
     g = gen_qc.Gen(ctx.seed + 41, size=8)
@@ -344,7 +378,7 @@ def extra_valid_int(ctx, rec):
 
 
 CARRIER_SETS_QUICK = {
-    "xc": ["list_none", "list_nan", "tuple_nan", "f32", "i64", "ma_nan", "ma_junk", "series", "series_idx", "dask"],
+    "xc": ["list_none", "list_nan", "tuple_nan", "f32", "i64", "ma_nan", "ma_junk", "ma_mixed", "series", "series_idx", "dask"],
     "tc": ["dt64us", "dt64ms", "dt64s", "pydt", "pdts", "dtindex", "series_naive", "series_utc", "dtindex_utc",
            "epoch_list", "epoch_i64", "epoch_f64"],
 }
@@ -518,11 +552,12 @@ PLAN = {
                      M("missing_b", ["att", "speed"], [], 2, budget=6000)],
                     [M("missing_a", ["gross", "valid", "spike", "roc", "flat", "loc", "clim"], [], 5, big=True, budget=120000),
                      M("missing_b", ["att", "speed", "dens"], [], 4, budget=120000)]),
-            "random": {"fns": NOPRESS, "count": (400, 5000), "kinds": [], "size": (8, 24)}},
+            "random": {"fns": NOPRESS, "count": (400, 5000), "kinds": [], "size": (8, 24)},
+            "extra": [extra_missing_markers]},
     "C03": {"repo_fns": ["gross", "valid"], "mc": T([M("range", ["gross", "valid"], ["shiftboth", "recall"], 1, budget=14000)],
                     [M("range", ["gross", "valid"], ["shiftboth", "tighten"], 1, big=True, budget=150000)]),
             "random": {"fns": ["gross", "valid"], "count": (500, 6000), "kinds": ["recall", "shiftboth"], "size": (10, 30)},
-            "extra": [extra_valid_int, extra_repo_tests]},
+            "extra": [extra_valid_int, extra_valid_time_bounds, extra_repo_tests]},
     "C08": {"repo_fns": ["clim"], "mc": T([M("clim", ["clim"], ["perturb"], 1, budget=16000)],
                     [M("clim", ["clim"], ["perturb", "tighten"], 1, big=True, budget=160000)]),
             "random": {"fns": ["clim"], "count": (500, 6000), "kinds": ["recall", "shiftt"], "size": (8, 24)},
